@@ -20,7 +20,10 @@ Decided (writer/reader agreement -- necessary for any round trip):
    builder, from_board, the pawn generator, play_unchecked, same_position and the validator.
 Not decided: round-trip equality and `equal boards <=> equal text` as behaviour (they also need
 C03/C10 and integer formatting in core)."""
-from .. import sym, lift
+import os
+from .. import sym, conc, lift
+from ..conc import Stuck
+from .common import loop_counter
 from . import gate as gatemod
 from .common import B, loc
 
@@ -88,11 +91,14 @@ def idx_ty(v):
     return "usize"
 
 
+OWN_WRITERS = set()       # private functions read as part of the writer being analysed (set by run())
+
+
 def writes(L, p):
     out = []
     pend = []
     for e in p.events:
-        if e.kind != "call" or e.depth != 0:
+        if e.kind != "call" or (e.depth != 0 and e.fn.split("::{closure")[0] not in OWN_WRITERS):
             continue
         if e.name.endswith("new_display"):
             a = e.args[0]
@@ -161,15 +167,24 @@ def run(ctx):
     L = g.L
     b = f.need(DISPLAY)
     where = loc(b)
-    paths = sym.SymExec(f, b, max_paths=200000).run()
+    # parts of the writer moved into private functions of their own (`write_rank(f, rank)`, `write_castle_rights(f, ..)`),
+    # loops and all, are read as part of it: everything the writer reaches inside the crate that takes the formatter
+    from .common import reachable_bodies
+    subw = {k_ for k_ in reachable_bodies(f, [DISPLAY], stop=lambda n_: not (n_.startswith("cozy_chess::") or n_.startswith("<cozy_chess::")))
+            if k_ != DISPLAY and k_.startswith("cozy_chess::") and f.bodies[k_].kind in ("Fn", "AssocFn") and not f.fns.get(k_, {}).get("pub")
+            and any("core::fmt::Formatter" in f.bodies[k_].locals[i_]["ty"] for i_ in range(1, f.bodies[k_].argc + 1))}
+    inl_w = (lambda n_: True if n_ in subw else None) if subw else None
+    OWN_WRITERS.clear()
+    OWN_WRITERS.update(subw)
+    paths = sym.SymExec(f, b, max_paths=200000, inline=inl_w).run()
     ctx.saw("%s: %d paths" % (b.key, len(paths)))
     # formatting helpers: local functions reachable from fmt that take the Formatter
     from .common import reachable_bodies
     helper_paths = []
     for k in sorted(reachable_bodies(f, [DISPLAY])):
         hb = f.bodies[k]
-        if k == DISPLAY or hb.kind not in ("Fn", "AssocFn") or hb.crate != "cozy_chess":
-            continue
+        if k == DISPLAY or hb.kind not in ("Fn", "AssocFn") or hb.crate != "cozy_chess" or k in subw:
+            continue            # (sub-writers are read in the context of their call, above)
         if any("core::fmt::Formatter" in hb.locals[i]["ty"] for i in range(1, hb.argc + 1)):
             hp = sym.SymExec(f, hb, max_paths=200000).run()
             ctx.saw("%s: %d paths (formatting helper)" % (hb.key, len(hp)))
@@ -185,11 +200,11 @@ def run(ctx):
             return False
         if p_.ret[0] == "agg" and p_.ret[2] == "Ok":
             return True
-        lw = [e_ for e_ in p_.events if e_.kind == "call" and e_.depth == 0 and "core::fmt" in e_.name and "::write_" in e_.name]
+        lw = [e_ for e_ in p_.events if e_.kind == "call" and (e_.depth == 0 or e_.fn.split("::{closure")[0] in OWN_WRITERS) and "core::fmt" in e_.name and "::write_" in e_.name]
         return bool(lw) and p_.ret == lw[-1].ret
     # the castling field is read on paths where the two-element loops (colours, wings) are executed element by element:
     # a loop over Color::ALL and four ifs written out by hand are then the same straight-line paths
-    paths_u = sym.SymExec(f, b, max_paths=200000, unroll_const=2).run()
+    paths_u = sym.SymExec(f, b, max_paths=200000, unroll_const=2, inline=inl_w).run()
     ctx.saw("%s: %d paths with the colour loop unrolled" % (b.key, len(paths_u)))
     rets = [p for p in paths_u if fmt_ok(p)]
     try:
@@ -310,6 +325,8 @@ def run(ctx):
                             bd = Ranger(f, {hvs[0]: "usize"}).bounds(hvs[0], p.conds)
                             if a_ is not None and cnt is not None and cnt[0] + a_ == 7 and cnt[1] == -1 and bd is not None and bd[0] + a_ == 0:
                                 desc_ranks = True
+                    if os.environ.get("CVA_DEBUG_WALK") and not (asc_files and desc_ranks):
+                        print("WALK fl=%s\n     rk=%s" % (sym.show(fl)[:300], sym.show(rk)[:600]))
                     ctx.check(asc_files and desc_ranks, "writer:walk-order", "the writer does not walk ranks 8->1 (reversed Rank::ALL) and files a->h (File::ALL)", where,
                               sample={"walk": "ranks reversed, files ascending"} if piece_writes == 1 else None)
                 # an empty count, if any, is flushed before the piece on paths where empty > 0
@@ -318,17 +335,73 @@ def run(ctx):
                     flush_before_piece = True
             if t == "/":
                 slash += 1
-                first = ("enum", T + "rank::Rank", "First")
-                gt = []
-                for c in p.conds:
-                    ce = L.lift(c[0])
-                    if ce[0] == "bin" and sym.contains(ce, lambda y: y == first) and isinstance(c[1], int):
-                        # rank > First, First < rank, rank != First all mean "not the first rank"
-                        if ce[1] in ("Gt", "Lt", "Ne"):
-                            gt.append(bool(c[1]))
-                        elif ce[1] in ("Eq", "Le", "Ge"):
-                            gt.append(not bool(c[1]))
-                ctx.check(bool(gt) and gt[-1] is True, "writer:slash-between-ranks", "'/' is not written exactly after ranks above the first", where)
+                # '/' separates consecutive ranks: the decision that guards it, evaluated for each of the eight positions of
+                # the walk (the walked element and / or a counter substituted), must hold for all but the first position
+                # when the '/' comes in front of the rank's squares and for all but the last when it follows them
+                # in front of the rank's squares or behind them: relative to the first look at a square (or the first pull
+                # of the file walk) on this path
+                looks_ = [e2_.idx for e2_ in p.events if e2_.kind == "call" and (e2_.name.endswith("::piece_on") or e2_.name.endswith("::color_on") or
+                                                                                  (e2_.name.endswith("Iterator>::next") and e2_.ret is not None and
+                                                                                   sym.contains(e2_.ret, lambda y: y[0] == "array" and len(y[1]) == 8 and y[1][0][0] == "enum" and y[1][0][1].endswith("file::File"))))]
+                before = bool(looks_) and e.idx < min(looks_)
+                after = bool(looks_) and not before
+                guard = p.conds[e.ncond - 1] if e.ncond >= 1 else None
+                # (the write itself may be followed by `?`: the guard is the last decision before it that is not about a write's result)
+                gi_ = e.ncond - 1
+                while gi_ >= 0 and sym.contains(p.conds[gi_][0], lambda y: y[0] == "call" and "core::fmt" in y[1]):
+                    gi_ -= 1
+                guard = p.conds[gi_] if gi_ >= 0 else None
+                verdict_ = "no guard"
+                if guard is not None and isinstance(guard[1], int) and (before or after):
+                    G_ = guard[0]
+                    vals_ = []
+                    try:
+                        for k_ in range(8):
+                            def sub_(x):
+                                if not isinstance(x, tuple) or not x:
+                                    return x
+                                if x[0] == "hv":
+                                    lc_ = loop_counter(paths, b, x)
+                                    if lc_ is None:
+                                        raise Stuck("counter %s" % (x,))
+                                    return ("int", lc_[0] + lc_[1] * k_, "usize")
+                                el_, fld_ = (x, None) if x[0] == "elem" else ((x[1], x[2]) if x[0] == "field" and x[1][0] == "elem" and x[2] in ("0", "1") else (None, None))
+                                if el_ is not None:
+                                    S_ = el_[1]
+                                    enum_ = rev_ = False
+                                    while True:
+                                        if S_[0] == "call" and S_[1].endswith("::enumerate"):
+                                            enum_, S_ = True, S_[2][0]
+                                        elif S_[0] in ("iter", "ref"):
+                                            S_ = S_[1]
+                                        elif S_[0] == "rev" or (S_[0] == "call" and S_[1].endswith("::rev")):
+                                            rev_ = not rev_
+                                            S_ = S_[1] if S_[0] == "rev" else S_[2][0]
+                                        else:
+                                            break
+                                    if S_[0] != "array" or len(S_[1]) != 8:
+                                        raise Stuck("walk source")
+                                    seq_ = list(S_[1])[::-1] if rev_ else list(S_[1])
+                                    if enum_ and fld_ == "0":
+                                        return ("int", k_, "usize")
+                                    if enum_ and fld_ == "1":
+                                        return ("ref", seq_[k_])
+                                    if not enum_ and fld_ is None:
+                                        return ("ref", seq_[k_])
+                                    raise Stuck("walk element")
+                                return tuple(sub_(y) for y in x)
+                            vals_.append(bool(conc.Conc({}, {}).ev(sub_(G_))) == bool(guard[1]))
+                        want_ = [k_ != 0 for k_ in range(8)] if before else [k_ != 7 for k_ in range(8)]
+                        verdict_ = "ok" if vals_ == want_ else "written at positions %s of the walk, %s the squares of the rank" % ([k_ for k_ in range(8) if vals_[k_]], "before" if before else "after")
+                    except (Stuck, TypeError, KeyError, IndexError) as ex_:
+                        verdict_ = "guard not evaluated (%s): %s" % (ex_, sym.show(G_)[:120])
+                    # the other branch of the guard writes no '/'
+                    for q_ in lbs:
+                        for c_ in q_.conds:
+                            if c_[0] == G_ and isinstance(c_[1], int) and c_[1] != guard[1] and any(t2_ == "/" for t2_, a2_, e2_ in writes(L, q_)):
+                                verdict_ = "'/' is written on both branches of its guard"
+                ctx.check(verdict_ == "ok", "writer:slash-between-ranks", "'/' is not written exactly between consecutive ranks: %s" % verdict_, where,
+                          sample={"slash": "before every rank but the first" if before else "after every rank but the last"} if slash == 1 else None)
     ctx.check(piece_writes >= 2 and slash >= 1 and flush_before_piece, "writer:placement-structure",
               "the placement writer lacks piece letters, empty-count flushes before pieces, or '/' separators (pieces %d, slashes %d)" % (piece_writes, slash), where)
     # ------------------------------------------------------------------ placement reader
